@@ -87,7 +87,7 @@ package sourcewrap
 //@   modifies rec_reverseTranslate, rec_waBlockingReport, rh
 //@   ensures C20_update_is_reverse_translated: rec_reverseTranslate_cnt == old(rec_reverseTranslate_cnt) + 1
 //@        && rec_reverseTranslate_arg0[old(rec_reverseTranslate_cnt)] == w.tfm && rec_reverseTranslate_arg1[old(rec_reverseTranslate_cnt)] == val
-//@   ensures C20_translated_update_is_forwarded: rec_reverseTranslate_res1[old(rec_reverseTranslate_cnt)] == nil ==>
+//@   ensures C07_C20_translated_update_is_forwarded_to_the_blocking_report: rec_reverseTranslate_res1[old(rec_reverseTranslate_cnt)] == nil ==>
 //@        rec_waBlockingReport_cnt == old(rec_waBlockingReport_cnt) + 1 && rec_waBlockingReport_arg0[old(rec_waBlockingReport_cnt)] == w.WatchArgs
 //@        && rec_waBlockingReport_arg2[old(rec_waBlockingReport_cnt)] == rec_reverseTranslate_res0[old(rec_reverseTranslate_cnt)]
 //@        && err == rec_waBlockingReport_res0[old(rec_waBlockingReport_cnt)]
@@ -171,7 +171,7 @@ package sourcewrap
 //@        && rec_sourceValue_cnt == old(rec_sourceValue_cnt) && rec_waBlockingReport_cnt == old(rec_waBlockingReport_cnt) && rec_watch_cnt == old(rec_watch_cnt)
 //@   ensures C07_value_is_read_first: s != nil && !isWatcher(old(b.inner)) ==> rec_sourceValue_cnt == old(rec_sourceValue_cnt) + 1
 //@        && rec_sourceValue_arg0[old(rec_sourceValue_cnt)] == s && rec_sourceValue_arg2[old(rec_sourceValue_cnt)] == b.t
-//@   ensures C07_failing_value_changes_nothing: s != nil && !isWatcher(old(b.inner)) && rec_sourceValue_res1[old(rec_sourceValue_cnt)] != nil ==>
+//@   ensures C07_C18_failing_value_changes_nothing: s != nil && !isWatcher(old(b.inner)) && rec_sourceValue_res1[old(rec_sourceValue_cnt)] != nil ==>
 //@        err != nil && b.inner == old(b.inner) && rec_waBlockingReport_cnt == old(rec_waBlockingReport_cnt) && rec_watch_cnt == old(rec_watch_cnt)
 //@   ensures C20_most_recent_source_installed_and_reported: s != nil && !isWatcher(old(b.inner)) && rec_sourceValue_res1[old(rec_sourceValue_cnt)] == nil ==>
 //@        b.inner == s && rec_waBlockingReport_cnt == old(rec_waBlockingReport_cnt) + 1
@@ -179,7 +179,7 @@ package sourcewrap
 //@        && rec_waBlockingReport_arg2[old(rec_waBlockingReport_cnt)] == rec_sourceValue_res0[old(rec_sourceValue_cnt)]
 //@   ensures C07_failed_report_is_returned: rec_waBlockingReport_cnt == old(rec_waBlockingReport_cnt) + 1
 //@        && rec_waBlockingReport_res0[old(rec_waBlockingReport_cnt)] != nil ==> err != nil && rec_watch_cnt == old(rec_watch_cnt)
-//@   ensures C07_watch_only_after_successful_report: rec_watch_cnt == old(rec_watch_cnt) + 1 ==>
+//@   ensures C07_C20_watch_only_after_successful_report_with_the_stored_arguments: rec_watch_cnt == old(rec_watch_cnt) + 1 ==>
 //@        rec_waBlockingReport_cnt == old(rec_waBlockingReport_cnt) + 1 && rec_waBlockingReport_res0[old(rec_waBlockingReport_cnt)] == nil
 //@        && isWatcher(s) && rec_watch_arg0[old(rec_watch_cnt)] == s && rec_watch_arg1[old(rec_watch_cnt)] == b.watchCtx
 //@        && rec_watch_arg2[old(rec_watch_cnt)] == b.t && rec_watch_arg3[old(rec_watch_cnt)] == b.wa
